@@ -11,6 +11,8 @@
     unpacked form `FTR.up_ofInt32`), and `is_linear` of a triple with a repeated point computes
     `|(+0)·k₁ − (+0)·k₂| = |±0 − ±0| < ε` (`dupLinear_int32`: exact differences `FTR.sub_int_exact_float32`,
     `x − x = +0`, zero times finite in Lean's float model, the four sign cases by kernel evaluation).
+  * `f17_needed_ieee` — the three F17 witness lines, parsed on `Float` / `Float32` in the kernel, store control points that
+    are not `F17Free`, hence not `PathShapeOk`.
   `CtrlLaws` (the NUMERIC half of `RepPath`) is still not instantiated for IEEE, so `decoded_sliders_representable_ieee`
   keeps it as a hypothesis.
 -/
@@ -261,5 +263,36 @@ theorem decoded_sliders_representable_ieee (LC : CtrlLaws Float Float32 IeeeRep3
   decoded_sliders_representable objLaws_ieee LC pathLaws_ieee bs st m h1 h2 mode
 
 end
+
+/-! ### the exception is needed on the IEEE instances too -/
+
+set_option maxRecDepth 100000
+
+/-- finding F17 on the IEEE instances: the three witness lines push sliders whose control points are not `F17Free`
+(kernel evaluation of the parser on `Float` / `Float32`), hence — `decoded_path_shape` — not `PathShapeOk`. -/
+theorem f17_needed_ieee : ∀ l ∈ [f17CatmullLine, f17TypedLine, catmullRunLine],
+    (parseHitObjectLine GameMode.osu ({} : HOCore Float Float32) l).2 = true ∧
+    ∃ o s, (parseHitObjectLine GameMode.osu ({} : HOCore Float Float32) l).1.hitObjects = [] ++ [o] ∧ o.kind = .slider s ∧
+      ¬ F17Free s.path.controlPoints ∧ ¬ PathShapeOk s.path.controlPoints := by
+  have key : ∀ l ∈ [f17CatmullLine, f17TypedLine, catmullRunLine],
+      (parseHitObjectLine GameMode.osu ({} : HOCore Float Float32) l).2 = true ∧
+      (match (parseHitObjectLine GameMode.osu ({} : HOCore Float Float32) l).1.hitObjects with
+       | [o] => (match o.kind with
+          | .slider s => decide (¬ F17Free s.path.controlPoints)
+          | _ => false)
+       | _ => false) = true := by
+    decide +kernel
+  intro l hl
+  obtain ⟨h1, h2⟩ := key l hl
+  refine ⟨h1, ?_⟩
+  split at h2
+  · rename_i o ho
+    split at h2
+    · rename_i s hs
+      have hn : ¬ F17Free s.path.controlPoints := of_decide_eq_true h2
+      exact ⟨o, s, by rw [ho]; rfl, hs, hn, fun hp => hn (pathShapeOk_f17Free _ hp)⟩
+    · cases h2
+  · cases h2
+
 
 end Rosu.C04
